@@ -626,6 +626,7 @@ theorem dis_cbOut (c : SCfg) (s : SState) (a b t : Nat) : s.dis <+: (stepL c s (
 theorem dis_envMove (c : SCfg) (s : SState) : s.dis <+: (stepL c s .envMove).dis := by dis_simp
 theorem dis_verdict (c : SCfg) (s : SState) (b : Bool) (x y z : Nat) : s.dis <+: (stepL c s (.verdict b x y z)).dis := by dis_simp
 theorem dis_other (c : SCfg) (s : SState) : s.dis <+: (stepL c s .other).dis := by dis_simp
+theorem dis_poll (c : SCfg) (s : SState) : s.dis <+: (stepL c s .poll).dis := by dis_simp
 
 /-- **the acceptor only ever appends disagreements** -/
 theorem dis_prefix (c : SCfg) (s : SState) (l : Label) : s.dis <+: (stepL c s l).dis := by
@@ -657,6 +658,7 @@ theorem dis_prefix (c : SCfg) (s : SState) (l : Label) : s.dis <+: (stepL c s l)
   | cbOut a b t => exact dis_cbOut c s a b t
   | envMove => exact dis_envMove c s
   | verdict b x y z => exact dis_verdict c s b x y z
+  | poll => exact dis_poll c s
   | other => exact dis_other c s
 
 theorem good_of_prefix (s s' : SState) (h : s.dis <+: s'.dis) (hg : Good s' = true) : Good s = true := by
@@ -668,6 +670,7 @@ theorem good_step_mono (c : SCfg) (s : SState) (l : Label) (hg : Good (stepL c s
   good_of_prefix s _ (dis_prefix c s l) hg
 
 theorem frame_verdict (c : SCfg) (s : SState) (b : Bool) (x y z : Nat) : FrameOK s (stepL c s (.verdict b x y z)) := by frame_simp
+theorem frame_poll (c : SCfg) (s : SState) : FrameOK s (stepL c s .poll) := by frame_simp
 
 /-- **one step keeps the slot invariant** (when it raises no disagreement of classes K / I / Q) -/
 theorem step_inv (c : SCfg) (s : SState) (l : Label) (h : InvK c s) (hg : Good (stepL c s l) = true) : InvK c (stepL c s l) := by
@@ -699,6 +702,7 @@ theorem step_inv (c : SCfg) (s : SState) (l : Label) (h : InvK c s) (hg : Good (
   | cbOut a b t => exact invK_frame c s _ h (frame_cbOut c s a b t)
   | envMove => exact invK_frame c s _ h (frame_env c s)
   | verdict b x y z => exact invK_frame c s _ h (frame_verdict c s b x y z)
+  | poll => exact invK_frame c s _ h (frame_poll c s)
   | other => exact invK_frame c s _ h (frame_other c s)
 
 end Cuke.SchedInv
